@@ -96,6 +96,15 @@ def run(tier, seed):
                 b.emit("bcat both e ez", "ok"); b.emit("kdec k both %s nil%s" % (kind, ex), "err mapping-mismatch")
         if meta["omit"]:
             b.emit("kdec k e %s nil%s" % (kind, ex), "err missing-mapping")
+        if i % 3 == 0 and not exact:
+            # a mapping block whose base or offset is not a number differs from every mapping a receiver can have
+            fx = facts[spec]; st = wire.Stream()
+            if rng.random() < 0.5: st.mapping(fx["kind"], float("nan"), fx["off"])
+            else: st.mapping(fx["kind"], fx["gamma"], float("nan"))
+            st.idc(False, [(3, 1.0), (2, 2.0)])
+            b.emit("braw nb " + bytes(st.b).hex(), "ok"); b.emit("kdec k nb %s %s" % (kind, spec), "err mapping-mismatch")
+            b.emit("knew kr %s sparse sparse" % spec, "ok"); b.emit("kadd kr %s" % f2h(1.0), "ok"); jr = b.emit("kobs kr")
+            b.emit("kdecinto kr nb", "err mapping-mismatch"); b.emit("kobs kr", ("same", jr))
         builders.append(b)
     return sketchcheck.run_sketch_property(
         pid, tier, seed, builders,
